@@ -760,6 +760,33 @@ fn run_bytes<T: Serialize + DeserializeOwned>(bytes: &[u8]) -> String {
     }
 }
 
+/// `Bridge::process_event` (root `Event`, app A) / `Bridge::handle_response` to an outstanding HTTP request (root `HttpResult`)
+/// on the case's bytes; `Some(what)` when the bridge's verdict differs from the decoder's
+fn bridge_entry(root: &str, bytes: &[u8], accepted: bool) -> Option<&'static str> {
+    let judge = |r: std::thread::Result<bool>| match r {
+        Err(_) => Some("panicked"),
+        Ok(true) if !accepted => Some("accepted-what-the-decoder-rejects"),
+        Ok(false) if accepted => Some("rejected-what-the-decoder-accepts"),
+        Ok(_) => None,
+    };
+    match root {
+        "Event" => {
+            let bridge: Bridge<app_a::App> = Bridge::new(Core::new());
+            judge(catch_unwind(AssertUnwindSafe(|| bridge.process_event(bytes).is_ok())))
+        }
+        "HttpResult" => {
+            let bridge: Bridge<app_a::App> = Bridge::new(Core::new());
+            let req = HttpRequest { method: "GET".into(), url: "https://example.com/".into(), headers: vec![], body: vec![] };
+            let ev = bridge_options().serialize(&Event::Http(req)).ok()?;
+            let out = bridge.process_event(&ev).ok()?;
+            let reqs: Vec<Request<app_a::EffectFfi>> = bridge_options().deserialize(&out).ok()?;
+            let id = reqs.iter().find(|r| matches!(r.effect, app_a::EffectFfi::Http(_)))?.id.0;
+            judge(catch_unwind(AssertUnwindSafe(|| bridge.handle_response(id, bytes).is_ok())))
+        }
+        _ => None,
+    }
+}
+
 fn run_case(line: &str) -> String {
     let items = match parse_line(line) {
         Some(i) if i.len() == 5 => i,
@@ -776,10 +803,34 @@ fn run_case(line: &str) -> String {
         },
         "strict" | "any" => match &items[3] {
             Tree::Atom(h) => match from_hex(h) {
-                Some(b) => with_root_type!(root, run_bytes, &b),
+                Some(b) => {
+                    let s = with_root_type!(root, run_bytes, &b);
+                    // the same bytes through the real entry points of the bincode bridge: they must accept exactly what the
+                    // decoder of the type accepts, and never panic
+                    match bridge_entry(root, &b, s.starts_with("accepted")) {
+                        Some(what) => format!("bridge-entry {what}"),
+                        None => s,
+                    }
+                }
                 None => "bad-case hex".into(),
             },
             _ => "bad-case hex".into(),
+        },
+        // a schema-valid event far larger than anything else in the stream: `big Event <format> <n> <registry>`
+        "big" => match (&items[3], root) {
+            (Tree::Atom(n), "Event") => match n.parse::<usize>() {
+                Ok(n) => {
+                    let ev = bridge_options().serialize(&Event::Blob(vec![7u8; n])).expect("serialize");
+                    let bridge: Bridge<app_a::App> = Bridge::new(Core::new());
+                    match catch_unwind(AssertUnwindSafe(|| bridge.process_event(&ev).is_ok())) {
+                        Ok(true) => format!("accepted-big {n}"),
+                        Ok(false) => "rejected".into(),
+                        Err(_) => "bridge-entry panicked".into(),
+                    }
+                }
+                Err(_) => "bad-case size".into(),
+            },
+            _ => "bad-case big".into(),
         },
         _ => "bad-case kind".into(),
     }
@@ -1752,6 +1803,9 @@ fn gen_cases(w: &World, seed: u64, n: usize) -> Vec<String> {
 /// empty / extreme values of a few roots
 fn gen_fixed(w: &World) -> Vec<String> {
     let mut out = vec![typegen_line()];
+    // one event of 1.5 MiB and one of 5 MiB through the real bridge (sizes far above every other case)
+    out.push(case_line(w, root(w, "Event"), "big", "1572864"));
+    out.push(case_line(w, root(w, "Event"), "big", "5242880"));
     let s = |x: &str| x.to_string();
     let vals: Vec<(&str, Uv)> = vec![
         ("HttpError", to_uv(&HttpError::Url(s("x"))).unwrap()),
